@@ -28,7 +28,7 @@ from lib.common import Broken, log
 
 LEVEL = "model_checking"
 
-ALL_DEVS = ["shared-self-copy-assign-sole-owner"]
+ALL_DEVS = ["shared-self-copy-assign-sole-owner", "shared-assign-from-member-of-own-pointee"]
 MAX_REPORTED = 25
 _LOCK = threading.Lock()
 
@@ -75,9 +75,17 @@ class Machine:
         raise NotImplementedError
 
 
-def _own_consts(u, b, hist, depth, dev, nobj=2, nvar=3):
-    return {"NVar": nvar, "UVars": _set(u), "BVars": _set(b), "NObj": nobj, "Hist": _b(hist), "Depth": depth,
-            "Dev": _set(dev)}
+def _own_consts(u, b, hist, depth, dev, nobj=2, nvar=3, mk="none"):
+    return {"NVar": nvar, "UVars": _set(u), "BVars": _set(b), "NObj": nobj, "MKind": '"%s"' % mk, "Hist": _b(hist),
+            "Depth": depth, "Dev": _set(dev)}
+
+
+OWN_NODE_SHAPES = {
+    # objects are nodes owning a member pointer variable m<o> (struct Node { P<Node> next; }): two root variables
+    # a, b of the same kind; sources/destinations of every operation may live inside a managed object
+    "list-unique": (["a", "b"], "unique"),
+    "list-shared": ([], "shared"),
+}
 
 
 OWN_SHAPES2 = {
@@ -99,13 +107,16 @@ class Ownership(Machine):
     key = "own"
     actions = ["CtorDefault", "CtorNew", "CtorAdopt", "CtorCopy", "CtorMove", "AssignCopy", "AssignMove",
                "AssignMoveSelf", "AssignNull", "Reset", "ResetNew", "ResetAdopt", "Release", "RawDelete", "Swap",
-               "ScopeExit", "AssignCopySelfDev"]
+               "ScopeExit", "AssignCopySelfDev", "AssignFromPointeeDev"]
     witnesses = {
         "shared": ["SelfCopySole", "SelfCopyNullCB", "SelfCopyShared", "SelfMove", "SelfSwap", "LastOwnerExit",
                    "NotLastExit", "AssignKills", "ConvDerivedBase"],
-        "unique": ["Adopt", "RawDelete", "SelfMove", "ConvDerivedBase", "LastOwnerExit"],
+        "unique": ["Adopt", "RawDelete", "SelfMove", "ConvDerivedBase"],
         "mixed": ["ConvUniqueShared", "SelfCopySole", "SelfCopyNullCB", "Adopt"],
         "mixed2": ["ConvUniqueShared", "ConvDerivedBase", "SelfCopyNullCB"],
+        "list-unique": ["AssignFromOwnPointee", "ResetFromOwnPointee", "CascadeDeath", "MemberTakesOver", "SelfMove",
+                        "LastOwnerExit", "Adopt", "RawDelete"],
+        "list-shared": ["AssignFromOwnPointee", "CascadeDeath", "MemberTakesOver", "SelfCopySole"],
     }
 
     def mc(self, ctx):
@@ -119,6 +130,9 @@ class Ownership(Machine):
                          ["TypeOK", "PropertyOrDev", "IdealHolds"], True))
             if ctx.tier == "thorough":
                 runs.append(("ideal " + name, _own_consts(u, b, False, 0, [], nobj), ["TypeOK", "Property"], False))
+        for name, (u, mk) in OWN_NODE_SHAPES.items():
+            runs.append(("as-implemented " + name, _own_consts(u, [], False, 0, ALL_DEVS, 3, nvar=2, mk=mk),
+                         ["TypeOK", "PropertyOrDev", "IdealHolds"], True))
         return runs
 
     def gens(self, ctx):
@@ -126,10 +140,20 @@ class Ownership(Machine):
         thorough = ctx.tier == "thorough"
         for name, (u, b) in OWN_SHAPES.items():
             cfgrec = {"nvar": 3, "nobj": 2, "u": u, "b": b, "shape": name}
-            depth = 4 if (thorough or name != "mixed2") else 3
+            # quick: the all-unique 3-root shape goes one operation less deep; list-unique (2 roots + members,
+            # depth 4) enumerates the unique_ptr operations at least as deeply
+            depth = 4 if (thorough or name not in ("mixed2", "unique")) else 3
             out.append(dict(name=name, consts=_own_consts(u, b, True, depth, ALL_DEVS), cfgrec=cfgrec, depth=depth,
                             sim=dict(num=1500 if thorough else 250, depth=9,
                                      consts=_own_consts(u, b, True, 9, ALL_DEVS, nobj=3),
+                                     cfgrec=dict(cfgrec, nobj=3)),
+                            wit=self.witnesses.get(name, [])))
+        for name, (u, mk) in OWN_NODE_SHAPES.items():
+            cfgrec = {"nvar": 2, "nobj": 2, "u": u, "b": [], "mk": mk, "shape": name}
+            out.append(dict(name=name, consts=_own_consts(u, [], True, 4, ALL_DEVS, 2, nvar=2, mk=mk), cfgrec=cfgrec,
+                            depth=4,
+                            sim=dict(num=2500 if thorough else 400, depth=10,
+                                     consts=_own_consts(u, [], True, 10, ALL_DEVS, 3, nvar=2, mk=mk),
                                      cfgrec=dict(cfgrec, nobj=3)),
                             wit=self.witnesses.get(name, [])))
         if thorough:
